@@ -413,6 +413,7 @@ func (t *Target) GnmiUpdate(n *pb.Notification) error {
 		updateTS = true
 		if nd != nil {
 			t.meta.AddInt(metadata.UpdateCount, int64(l))
+			verifAt("feed.before", t)
 			t.client(nd)
 		}
 
@@ -438,6 +439,7 @@ func (t *Target) GnmiUpdate(n *pb.Notification) error {
 			updateTS = true
 			if nd != nil {
 				t.meta.AddInt(metadata.UpdateCount, 1)
+				verifAt("feed.before", t)
 				t.client(nd)
 			}
 		}
@@ -447,6 +449,7 @@ func (t *Target) GnmiUpdate(n *pb.Notification) error {
 			noti.Delete = []*pb.Path{d}
 			t.meta.AddInt(metadata.UpdateCount, 1)
 			for _, nd := range t.gnmiRemove(noti) {
+				verifAt("feed.before", t)
 				t.client(nd)
 			}
 		}
@@ -462,6 +465,7 @@ func (t *Target) GnmiUpdate(n *pb.Notification) error {
 		updateTS = true
 		if nd != nil {
 			t.meta.AddInt(metadata.UpdateCount, 1)
+			verifAt("feed.before", t)
 			t.client(nd)
 		}
 
@@ -469,6 +473,7 @@ func (t *Target) GnmiUpdate(n *pb.Notification) error {
 	case len(n.GetDelete()) == 1:
 		t.meta.AddInt(metadata.UpdateCount, 1)
 		for _, nd := range t.gnmiRemove(n) {
+			verifAt("feed.before", t)
 			t.client(nd)
 		}
 
